@@ -64,6 +64,19 @@ Proof.
   rewrite bytes_of_app, bytes_of_map_Rd. unfold vwarn. destruct (valid p z); cbn [app bytes_of]; unfold blen in *; rewrite app_length; lia.
 Qed.
 
+(** from a completed run of the processor with a well-shaped trace to the result of the byte pump (any root but a stream) *)
+Lemma accepted_of_run T abort r bs tr s' a items :
+  is_stream_root r = false -> dec_root T abort r (init_st bs) = (tr, s', Ok a) -> shape tr items -> inp s' = [] ->
+  decode T abort r bs = (stamp_lenient (Z.of_nat (List.length bs)) items 0, OAccepted).
+Proof.
+  intros Hr Er Sh I'. unfold decode, pump. rewrite Er, Hr.
+  destruct (pump_go_nostream (Z.of_nat (List.length bs)) tr (mkP 0 None [])) as (ps & G & _ & N).
+  rewrite G. pose proof (pump_go_stamps _ _ _ _ _ _ G) as O. cbn [ps_out ps_nrd rev app] in O, N. rewrite Z.add_0_l in N.
+  pose proof (accounts_dec_root T abort r (init_st bs) tr s' (Ok a) Er) as A. cbn [init_st inp] in A.
+  assert (R : skipZ bs (ps_nrd ps) = inp s') by (rewrite N; rewrite A at 1; apply skipZ_app).
+  rewrite R, I'. rewrite O. rewrite (shape_stamps _ _ _ Sh). reflexivity.
+Qed.
+
 (** both modes at once: whenever the specification reads the whole input as a value of type [t] (in strict mode:
     with only valid leaves), decoding emits every field's event, out-of-range leaves followed by their warning,
     with the specified look-ahead, and accepts *)
@@ -76,15 +89,8 @@ Proof.
   assert (W0 : wf_st (mkSt bs [] [])) by (split; constructor).
   destruct (St t root_path None false bs v [] (mkSt bs [] []) Es AV W0 eq_refl ltac:(unfold blen; cbn; lia) ltac:(constructor))
     as (tr & s' & a & c & E & Sh & Ic & I' & V' & W' & _).
-  unfold decode, pump. cbn [is_stream_root dec_root].
-  assert (Er : (bind (set_lst []) (fun _ => dec_ty T abort t root_path None false)) (init_st bs) = (tr, s', Ok a)).
-  { unfold bind. cbn [set_lst init_st inp store lst]. rewrite E. reflexivity. }
-  rewrite Er.
-  destruct (pump_go_nostream (Z.of_nat (List.length bs)) tr (mkP 0 None [])) as (ps & G & _ & N).
-  rewrite G. pose proof (pump_go_stamps _ _ _ _ _ _ G) as O. cbn [ps_out ps_nrd rev app] in O, N. rewrite Z.add_0_l in N.
-  pose proof (accounts_dec_root T abort (RType t) (init_st bs) tr s' (Ok a)) as A. cbn [dec_root] in A. specialize (A Er). cbn [init_st inp] in A.
-  assert (R : skipZ bs (ps_nrd ps) = inp s') by (rewrite N; rewrite A at 1; apply skipZ_app).
-  rewrite R, I'. rewrite O. rewrite (shape_stamps _ _ _ Sh). reflexivity.
+  apply (accepted_of_run T abort (RType t) bs tr s' a (items_of v) eq_refl); [|exact Sh|exact I'].
+  cbn [dec_root]. unfold bind. cbn [set_lst init_st inp store lst]. rewrite E. reflexivity.
 Qed.
 
 (** C01 for structure types: whenever the specification reads the whole input as a value of type [t] with only
